@@ -93,7 +93,8 @@ TEXT["C02"] = dict(
     note=TRUST + " The structural half is Theorems/C02a: a small scanner (Spec/Balance.lean: code/string/comment/back-quote modes, a "
          "stack of open brackets, '->' recognised) and the theorems that every emitted type, parameter list, function, attribute, "
          "enum, documentation comment, TODO block and class (any nesting, inlined private bases) is balanced under the lexical "
-         "hypotheses; the module level is _partial (it assumes the final import paths are bracket-free). That the scanner's notion "
+         "hypotheses; the module level is _partial (it assumes the final import paths are bracket-free; the package line is derived from the ids "
+         "of the module and its re-exporters, module_closed_partial'). That the scanner's notion "
          "of balance agrees with the Safe-DS grammar rests on the recogniser tie/stubparse.py accepting every file of every "
          "S-B/S-E case; the Safe-DS reference parser is not installed.")
 TEXT["C05"] = dict(
